@@ -91,7 +91,7 @@ func (p *pump) inject(what string, f func() bool) (bool, error) {
 	select {
 	case r := <-done:
 		return r, nil
-	case <-time.After(guard):
+	case <-pbt.After(guard):
 		return false, fmt.Errorf("%s did not return within %v although PollEvent was being called concurrently", what, guard)
 	}
 }
@@ -100,7 +100,7 @@ func (p *pump) inject(what string, f func() bool) (bool, error) {
 func (p *pump) collect() ([]tcell.Event, error) {
 	p.n++
 	mark := &sentinel{t: time.Now(), n: p.n}
-	deadline := time.Now().Add(guard)
+	deadline := time.Now().Add(pbt.Scaled(guard))
 	for tries := 0; ; tries++ {
 		if err := p.s.PostEvent(mark); err == nil {
 			break
